@@ -422,13 +422,34 @@ def _cprojadj(cfg, rng):
     return o.ComponentProjectionAdjoint(P, index)
 
 
+def _hetero_last(cfg, rng, ops, S, side):
+    """With the option `hetero`, the last block maps to / from rn(S.size)
+    instead of S, so that the product space is NOT a power space."""
+    if len(ops) < 2 or not opt(cfg, rng, 'hetero', [False, False, True]):
+        return ops
+    o = odl()
+    try:
+        flat = o.FlatteningOperator(S)
+        if flat.range == S:
+            return ops
+        if side == 'range':
+            ops[-1] = flat * ops[-1]
+        elif side == 'domain':
+            ops[-1] = ops[-1] * flat.inverse
+        else:
+            ops[-1] = flat * ops[-1] * flat.inverse
+    except Exception:
+        pass
+    return ops
+
+
 @recipe('Broadcast', fam='pspace')
 def _broadcast(cfg, rng):
     S = space(cfg, rng, want='real')
     n = opt(cfg, rng, 'n', [1, 2, 3])
     cache = {}
-    return odl().BroadcastOperator(*[_leaf(cfg, rng, 'l%d' % i, S, cache)
-                                     for i in range(n)])
+    ops = [_leaf(cfg, rng, 'l%d' % i, S, cache) for i in range(n)]
+    return odl().BroadcastOperator(*_hetero_last(cfg, rng, ops, S, 'range'))
 
 
 @recipe('Reduction', fam='pspace')
@@ -436,8 +457,8 @@ def _reduction(cfg, rng):
     S = space(cfg, rng, want='real')
     n = opt(cfg, rng, 'n', [1, 2, 3])
     cache = {}
-    return odl().ReductionOperator(*[_leaf(cfg, rng, 'l%d' % i, S, cache)
-                                     for i in range(n)])
+    ops = [_leaf(cfg, rng, 'l%d' % i, S, cache) for i in range(n)]
+    return odl().ReductionOperator(*_hetero_last(cfg, rng, ops, S, 'domain'))
 
 
 @recipe('Diagonal', fam='pspace')
@@ -445,8 +466,8 @@ def _diagonal(cfg, rng):
     S = space(cfg, rng, want='real')
     n = opt(cfg, rng, 'n', [1, 2, 3])
     cache = {}
-    return odl().DiagonalOperator(*[_leaf(cfg, rng, 'l%d' % i, S, cache)
-                                    for i in range(n)])
+    ops = [_leaf(cfg, rng, 'l%d' % i, S, cache) for i in range(n)]
+    return odl().DiagonalOperator(*_hetero_last(cfg, rng, ops, S, 'both'))
 
 
 # ==========================================================================
